@@ -42,6 +42,8 @@ def sup_scenarios(rep, tier, seed):
                 rep.skip("non_finite_precomputed_matrix")
                 continue
             scns.append(scn)
+    # resubstitution after save -> load into an object built with another metric
+    scns += S.reload_scenarios(random.Random(seed * 1000003 + 405), 120 if thorough else 32, resub=True)
     return scns
 
 
